@@ -114,7 +114,7 @@ func vh_C18_History() {
 	s := NewSimpleHTTPWithClientAndInterceptors(client, initial...)
 	steps := 3 + vfTier()
 	for step := 0; step < steps; step++ {
-		op := vfChoose("op", 11)
+		op := vfChoose("op", 12)
 		switch {
 		case op < 3:
 			s.AddInterceptor(ics[op])
@@ -132,6 +132,18 @@ func vh_C18_History() {
 		case op == 6:
 			s.ClearInterceptor()
 			model = nil
+		case op == 10:
+			// one call naming two interceptors (in either order): both go, whatever is registered
+			k1 := vfChoose("first-name", 3)
+			k2 := (k1 + 1 + vfChoose("second-name", 2)) % 3
+			s.RemoveInterceptor(ics[k1], ics[k2])
+			var nm []int
+			for _, x := range model {
+				if x != k1 && x != k2 {
+					nm = append(nm, x)
+				}
+			}
+			model = nm
 		case op == 7:
 			s.SetHTTPClient(s.GetHTTPClient()) // the same client again
 		case op == 8:
